@@ -56,12 +56,13 @@ PROPS["C03"] = dict(
     verus=[dict(name="block", template="contracts/C03/block.vrs",
                 expect=["<Block<P> as Component<P>>::init", "<Block<P> as Component<P>>::require", "<Block<P> as Component<P>>::execute"]),
            dict(name="branch_loop", template="contracts/C03/branch_loop.vrs",
-                expect=["<Branch<P> as Component<P>>::execute", "<Loop<P> as Component<P>>::execute", "<Loop<P> as Component<P>>::init"]),
+                expect=["<Branch<P> as Component<P>>::execute", "<Loop<P> as Component<P>>::execute", "<Loop<P> as Component<P>>::init",
+                        "template::lemma_bounded_loop_makes_exactly_n_passes"]),
            dict(name="scope", template="contracts/C03/scope.vrs", expect=["<Scope<P> as Component<P>>::execute"]),
            dict(name="run", template="contracts/C03/run.vrs", expect=["Configuration<P>::run"]),
            dict(name="inner_state", template="contracts/C03/inner_state.vrs", expect=["State<'a, P>::with_inner_state"])],
     kani=[],
-    min_obligations={"quick": 14, "thorough": 14},
+    min_obligations={"quick": 16, "thorough": 16},
     uncovered=["builder sugar (do_/while_/if_/scope_ -> Block/Loop/Branch/Scope) is not under contract",
                "the meta-step 'node obligations => all trees' is structural induction, stated not machine-checked",
                "Loop::execute is proved for partial correctness (a loop over an arbitrary condition need not terminate)"],
@@ -198,7 +199,7 @@ PROPS["C10"] = dict(
     kani=[dict(files=["contracts/C10/c10.rs"])],
     min_obligations={"quick": 14, "thorough": 14},
     uncovered=["And/Or::evaluate (closure capturing &mut state: Verus rejects; Kani does not terminate)", "the VALUE of the progress written by LessThanN (float division is uninterpreted)",
-               "OptimumReached", "RandomChance (probability)", "'exactly n passes' composition theorem"],
+               "OptimumReached", "RandomChance (probability)"],
 )
 
 PROPS["C11"] = dict(
